@@ -42,7 +42,7 @@ typedef struct {
         uint32_t len;
         int bad; /* 1: NULL source pointer -> rejected */
 } op_t;
-#define NPROG 6
+#define NPROG 10
 #define PLEN 6
 static const op_t PROG[NPROG][PLEN] = {
         /* completes at submit */
@@ -57,6 +57,14 @@ static const op_t PROG[NPROG][PLEN] = {
         { { K_D_GCM, NULL, 1, 77, 0 }, { K_D_SHA256, NULL, 1, 90, 0 }, { K_D_ZUC, NULL, 1, 61, 0 }, { K_D_CRC, NULL, 1, 99, 0 }, { K_D_SNOW3G, NULL, 1, 45, 0 }, { K_QSIZE } },
         /* DES lanes + CCM + get_completed */
         { { K_NEXT, "des-cbc", 1, 40, 0 }, { K_SUBMIT }, { K_NEXT, "aes-ccm-128", 1, 48, 0 }, { K_SUBMIT }, { K_GETC }, { K_FLUSH } },
+        /* AEAD: GCM encrypt + CCM-256 decrypt */
+        { { K_NEXT, "aes-gcm-128", 1, 77, 0 }, { K_SUBMIT }, { K_NEXT, "aes-ccm-256", 0, 33, 0 }, { K_SUBMIT }, { K_FLUSH }, { K_GETC } },
+        /* wireless integrity (bit length) + KASUMI F9 */
+        { { K_NEXT, "zuc-eia3-128", 1, 200, 0 }, { K_SUBMIT }, { K_NEXT, "kasumi-f9", 1, 40, 0 }, { K_SUBMIT }, { K_FLUSH }, { K_FLUSH } },
+        /* DOCSIS with CRC32 (in place) + CBCS */
+        { { K_NEXT, "docsis-aes-128-crc32", 1, 70, 0 }, { K_SUBMIT }, { K_NEXT, "aes-cbcs-1-9", 1, 160, 0 }, { K_SUBMIT }, { K_FLUSH }, { K_FLUSH } },
+        /* SM4 + Poly1305 + SHA-512, no flush (jobs may stay parked when the history ends) */
+        { { K_NEXT, "sm4-cbc", 1, 48, 0 }, { K_SUBMIT }, { K_NEXT, "poly1305", 1, 50, 0 }, { K_SUBMIT }, { K_NEXT, "sha512", 1, 100, 0 }, { K_SUBMIT } },
 };
 
 static void
